@@ -200,8 +200,12 @@ def syntactic_frame_ok():
     node = interp.function_ast(sv.compare_variables)
     ok = True
     uses = []
+    params = [a.arg for a in node.args.args]
+    if len(params) != 6:
+        return False
+    ud = set(params[4:6])         # the two user-instruction lists, whatever they are called
     for n in ast.walk(node):
-        if isinstance(n, ast.Name) and n.id in ('user_def_origin', 'user_def_opt') and isinstance(n.ctx, ast.Load):
+        if isinstance(n, ast.Name) and n.id in ud and isinstance(n.ctx, ast.Load):
             uses.append(n)
     parents = {}
     for p in ast.walk(node):
@@ -212,9 +216,9 @@ def syntactic_frame_ok():
         if isinstance(p, ast.Call) and isinstance(p.func, ast.Name) and p.func.id == 'filter' and p.args[1] is u:
             lam = p.args[0]
             txt = ast.unparse(lam)
-            if not (isinstance(lam, ast.Lambda) and 'in x[\'outpt_sk\']' in txt.replace('"', "'")):
+            if not (isinstance(lam, ast.Lambda) and "['outpt_sk']" in txt.replace('"', "'") and ' in ' in txt):
                 ok = False
-        elif isinstance(p, ast.Call) and isinstance(p.func, ast.Name) and p.func.id == 'compare_variables':
+        elif isinstance(p, ast.Call) and isinstance(p.func, ast.Name) and p.func.id == node.name:
             pass
         else:
             ok = False
@@ -445,4 +449,61 @@ _cases2 = cases
 def cases(tier='quick'):
     cs, meta = _cases2(tier)
     cs += [ForvesGate(), ForvesRendering()]
+    return cs, meta
+
+
+# ---------------------------------------------------------------------------------------------------------------
+# list-level checker functions with loop contracts (unbounded lists)
+from pyvc.symlist import SymList, ValCodec, LoopSpec
+
+
+class _TargetStackInv(LoopSpec):
+    """while i < len(tgt_origin): invariant  0 <= i <= n  and  forall j < i. den_o(tgt_origin[j]) = den_p(tgt_opt[j])"""
+
+    def havoc(self, it, fr, k):
+        fr.locals['i'] = it.path.fresh_int('i')
+
+    def inv(self, it, fr, k):
+        ie = sym._as_int_expr(fr.locals['i'])
+        to, tp = fr.locals['tgt_origin'], fr.locals['tgt_opt']
+        j = z3.Int('j!inv')
+        return z3.And(ie >= 0, ie <= to.n, to.n == tp.n,
+                      z3.ForAll([j], z3.Implies(z3.And(j >= 0, j < ie), den_o(to.at(j)) == den_p(tp.at(j)))))
+
+
+class CompareTargetStack(Case):
+    """compare_target_stack on target stacks of ANY length: True only if the lengths agree and every position has equal
+    denotation (compare_variables used through its contract)"""
+    prop = 'C05'
+    tier = 'P'
+    name = "compare_target_stack(unbounded)"
+    functions = (sv.compare_target_stack,)
+    stubs = {'verification.sfs_verify.compare_variables': stub_compare_variables}
+    loops = {('verification.sfs_verify.compare_target_stack', 0): _TargetStackInv()}
+    native_cover = False
+
+    def run(self, H):
+        if not H.symbolic:
+            return
+        to, tp = SymList(ValCodec(), name='tgt_o'), SymList(ValCodec(), name='tgt_p')
+        src = SrcStack()
+        jo = {"src_ws": src, "tgt_ws": to, "user_instrs": []}
+        jp = {"src_ws": src, "tgt_ws": tp, "user_instrs": []}
+        out = H.call(sv.compare_target_stack, jo, jp)
+        H.check('raises-nothing', out.ok, info=repr(out.exc))
+        if not out.ok:
+            return
+        r = out.value
+        acc = sym.truth(r[0]) if isinstance(r[0], Sym) else bool(r[0])
+        j = z3.Int('j!post')
+        post = z3.And(to.n == tp.n, z3.ForAll([j], z3.Implies(z3.And(j >= 0, j < to.n), den_o(to.at(j)) == den_p(tp.at(j)))))
+        H.check('True=>same-length-and-equal-denotation-at-every-position', implies(acc, Sym(post)))
+
+
+_cases3 = cases
+
+
+def cases(tier='quick'):
+    cs, meta = _cases3(tier)
+    cs.append(CompareTargetStack())
     return cs, meta
